@@ -304,6 +304,9 @@ class DRFNet(BayesianNetwork):
         # A single generator for the whole call, so that the bootstrap
         # samples of different source nodes/environments are independent
         rng = np.random.default_rng(random_state)
+        # The forests' predictions are sampled (in drf.predict) with
+        # numpy's global generator
+        np.random.seed(random_state) if random_state is not None else None
         # Generate a sample for each environment
         sampled_data = []
         for k in range(self.e):
